@@ -11,6 +11,7 @@
  *            service call per process call, at any of its lock points); oracle is
  *            safety + pool conservation + never after confirmed delete +
  *            one-shot at most once + nothing lost after a final flush
+ *         3: as 2, but the service preempts ONLY inside COTmrProcess (keeps a pool of 2 within reach)
  *  OPSEQ  optional: {k0,k1,...} concrete operation kinds (the driver then
  *         enumerates every kind sequence; arguments stay symbolic)
  *  FIRST  optional: kind of the first operation (sharding)
@@ -121,9 +122,12 @@ void env_preempt_point(void)
 #if ISR == 1
     if (in_process) { return; }
 #endif
+#if ISR == 3
+    if (!in_process) { return; }     /* preemption only inside COTmrProcess */
+#endif
     if (pre_k < NPRE) { f = pre_flag[pre_k]; }
     pre_k++;
-#if ISR == 2
+#if ISR >= 2
     /* inside one process call the service preempts at most once (any point) */
     if (in_process) {
         if (in_process > 1) { f = 0; }
@@ -204,7 +208,7 @@ static void check_counts(void)
 {
     uint32_t i;
     for (i = 0; i < NT; i++) {
-#if ISR == 2
+#if ISR >= 2
         CHECK(!(m[i].deleted) || (fired[i] == m[i].fired_at_delete), "no callback after confirmed deletion");
         CHECK(!(i < m_n && m[i].period == 0) || (fired[i] <= 1), "one-shot action runs at most once");
 #else
@@ -236,7 +240,11 @@ void harness(void)
         op[s] = ND_U8() & 3;
 #endif
         a1[s] = ND_RANGE(0, TMAX);
+#ifdef ONESHOT
+        a2[s] = 0;                               /* one-shot actions only */
+#else
         a2[s] = ND_RANGE(0, TMAX);
+#endif
     }
 #ifdef FIRST
     ASSUME(op[0] == FIRST);
@@ -339,7 +347,7 @@ void harness(void)
 #if ISR != 0
             in_process = 0;
 #endif
-#if ISR != 2
+#if ISR < 2
             m_process();
 #else
             /* weak oracle: resynchronise the bookkeeping needed for create/delete predictions */
@@ -354,7 +362,7 @@ void harness(void)
         check_due();
 #endif
     }
-#if ISR == 2
+#if ISR >= 2
     /* final flush without preemption: nothing may be lost */
     env_preempt_on = 0;
     for (i = 0; i < TMAX + 1; i++) {
